@@ -189,6 +189,29 @@ pub fn oracle(req: &Req, got: &Resp) -> Result<(), String> {
             }
             Ok(())
         }
+        "gp.rs_group" => {
+            if a[0].len() != 64 { return if rej { Ok(()) } else { Err("length".into()) }; }
+            if rej || b.len() != 32 + 1 + 32 + 3 + 32 + 2 + 32 + 32 + 2 { return Err(format!("gp.rs_group: {}", got.short())); }
+            let p = rist::from_uniform_bytes(&a64(&a[0]));
+            let e = rist::encode(&p);
+            let z = [0u8; 32];
+            let pid = rist::equal(&p, &Aff::IDENTITY) as u8;
+            let mut want = vec![];
+            want.extend_from_slice(&e);
+            want.push(pid);
+            want.extend_from_slice(&z);
+            want.extend_from_slice(&[1, 1, 1]);
+            want.extend_from_slice(&z);
+            want.extend_from_slice(&[1, 1]);
+            want.extend_from_slice(&e);
+            want.extend_from_slice(&z);
+            want.extend_from_slice(&[1, 1]);
+            if b[..] != want[..] {
+                let i = (0..b.len()).find(|i| b[*i] != want[*i]).unwrap();
+                return Err(format!("RistrettoPoint group traits on P = from_uniform_bytes(..) and D = P - decompress(compress(P)) (the identity element, generally with a torsion representative): output byte {} is {} instead of {} (layout: bytes(P) 0..32, is_identity(P) 32, bytes(D) 33..65, Group::is_identity(D) 65, ct_eq(D, identity) 66, D == identity 67, bytes(2D) 68..100, is_torsion_free(D) 100, is_torsion_free(P) 101, bytes(clear_cofactor(P)) 102..134, bytes(2P-P-P') 134..166, is_identity 166, IsIdentity 167)", i, b[i], want[i]));
+            }
+            Ok(())
+        }
         "gp.cofactor" => {
             let p = need!(ptab(&a[0]));
             if rej || b.len() != 32 + 2 + 32 + 1 + 32 * 6 { return Err(format!("gp.cofactor: {}", got.short())); }
